@@ -110,6 +110,7 @@ class SrcIndex:
         s.types = {}        # short name -> [TypeDef]
         s.uses = {}         # rel -> {ident: full path}
         s.traits = {}       # short name -> [module]
+        s.alias_targets = {}
         for dp, dn, fn in os.walk(os.path.join(repo, 'src')):
             for f in fn:
                 if f.endswith('.rs'):
@@ -138,6 +139,14 @@ class SrcIndex:
             # inline `mod x {` nesting is ignored except for `mod test`
             if kind == 'trait':
                 s.traits.setdefault(name, []).append(mod); continue
+            if kind == 'type':
+                # only module-level aliases (associated types inside impls are indented)
+                ls = src.rfind('\n', 0, m.start()) + 1
+                if src[ls:m.start()].strip(' \t') != '' or m.start() != ls and src[ls] in ' \t': continue
+                tm = re.match(r'\s*=\s*([^;]+);', src[m.end():m.end() + 200])
+                if not tm: continue
+                s.alias_targets[name] = tm.group(1).strip()
+                continue
             td = TypeDef(name, mod, kind, rel, line)
             s.types.setdefault(name, []).append(td)
             if kind == 'enum':
